@@ -79,7 +79,7 @@ func c13Units(tier string) []string {
 			u = append(u, fmt.Sprintf("blob-bytes#%s#%d", s, k))
 		}
 	}
-	return append(u, "short-strings#image", "short-strings#blob", "bigfiles", "scaling")
+	return append(u, "short-strings#image", "short-strings#blob", "bigfiles", "scaling", "cert-entries")
 }
 
 func c13DriveImage(x []byte) { c13DriveImageVia(bytes.NewReader(x)) }
@@ -381,6 +381,46 @@ func c13Run(c *hx.Ctx, tier, unit string) {
 			mut[off] = v
 			if c.Expired() {
 				return
+			}
+		}
+	case "cert-entries":
+		// certificate-table entries of every type the specification names (and some it does not), both
+		// revisions, with bodies of 0..40 bytes: nothing, zeros, the PKCS7 type GUID and what follows it in a
+		// WIN_CERTIFICATE_UEFI_GUID, the beginning of a real signature; alone and in front of a valid signature
+		base := pegen.Build(pegen.Layout{PE32Plus: true, Lfanew: 0x40, Secs: []pegen.Sec{{RawSize: 8}, {RawSize: 16}}})
+		sigBlob, err := c02SignBlob(base, 1)
+		if err != nil {
+			c.Note("cannot sign the base image: %v", err)
+			return
+		}
+		p7guid := []byte{0x9d, 0xd2, 0xaf, 0x4a, 0xdf, 0x68, 0xee, 0x49, 0x8a, 0xa9, 0x34, 0x7d, 0x37, 0x56, 0x65, 0xa7}
+		bodies := []struct {
+			name string
+			b    []byte
+		}{{"zeros", make([]byte, 64)}, {"the PKCS7 type GUID, then zeros", append(append([]byte{}, p7guid...), make([]byte, 48)...)},
+			{"the PKCS7 type GUID, then the beginning of a signature", append(append([]byte{}, p7guid...), sigBlob[:48]...)}, {"the beginning of a signature", sigBlob[:64]}}
+		im0, _ := refpe.Parse(base)
+		for _, typ := range []uint16{0x0000, 0x0001, 0x0002, 0x0003, 0x0004, 0x0EF0, 0x0EF1, 0x0EF2, 0xFFFF} {
+			for _, rev := range []uint16{0x0100, 0x0200} {
+				for n := 0; n <= 40; n++ {
+					for _, bd := range bodies {
+						for _, followed := range []bool{false, true} {
+							blobs := [][]byte{bd.b[:n]}
+							if followed {
+								blobs = append(blobs, sigBlob)
+							}
+							x, err := refpe.Attach(base, blobs...)
+							if err != nil {
+								continue
+							}
+							off := int(binary.LittleEndian.Uint32(x[im0.CertDirOff:]))
+							binary.LittleEndian.PutUint16(x[off+4:], rev)
+							binary.LittleEndian.PutUint16(x[off+6:], typ)
+							class := fmt.Sprintf("certificate entry of type %#06x with a short body (%s)", typ, bd.name)
+							robustRun(c, "C13", "image driver", class, x, func() { c13DriveImage(x) })
+						}
+					}
+				}
 			}
 		}
 	case "short-strings":
